@@ -321,7 +321,7 @@ def gen_invocation(cmd, d, inp, bad_ok=True):
 def part_b(d):
     inp = os.path.join(d, 'present.file')
     open(inp, 'wb').write(b'x')
-    n = 900 if THOROUGH else 260
+    n = 2500 if THOROUGH else 260
     cases = []
     for i in range(n):
         cmd = rng.choice(['sgy2sgz'] * 6 + ['zgy2sgz'] * 2 + ['sgz2sgy'])
@@ -472,7 +472,7 @@ def run_api_calls(model_calls, out_override):
 
 
 def part_c(d):
-    n3, n2 = (40, 12) if THOROUGH else (20, 7)
+    n3, n2 = (120, 30) if THOROUGH else (20, 7)
     plan = []
     fam3 = FAMILIES_3D[:]
     rng.shuffle(fam3)
@@ -606,7 +606,8 @@ def part_c(d):
             os.remove(api_out)
     # ---- sgz2sgy
     rng.shuffle(made_sgz)
-    picks = made_sgz[: (12 if THOROUGH else 6)]
+    n3x, n2x = (9, 4) if THOROUGH else (4, 2)
+    picks = [x for x in made_sgz if x[0] == '3d'][:n3x] + [x for x in made_sgz if x[0] == '2d'][:n2x]
     terms = [run_term('sgz2sgy', [sgz], [sgz, sgz[:-4] + '.cli.sgy'], {}) for _, sgz in picks]
     vals = coq_eval(REQ, terms, preamble=PRE) if picks else []
     for (kind, sgz), v in zip(picks, vals):
